@@ -186,7 +186,9 @@ theorem cited_elsewhere_exist :
         Kit.C07.aeskw_wrap_never_panics, Kit.C07.pad_never_panics, Kit.C07.unpad_never_panics,
         Kit.C07.cbcHmacOpen_never_panics, Kit.C07.cbcHmacSeal_never_panics,
         Kit.C07.aescbcaead_params_sound, Kit.Cron.getBits_loop_terminates,
-        Kit.Enc.C01NoPanic.processSegments_never_panics, Kit.Enc.C01NoPanic.readHeader_never_panics]) = true := by
+        Kit.Enc.C01NoPanic.processSegments_never_panics, Kit.Enc.C01NoPanic.readHeader_never_panics,
+        Kit.Enc.C01NoPanic.processSegments_terminates, Kit.Enc.C01NoPanic.fill_terminates,
+        Kit.Enc.C01NoPanic.readHeader_terminates]) = true := by
   decide +kernel
 
 end Kit.C07
